@@ -19,7 +19,7 @@ circuits are compared with on every run):
 
 The merging of variables by the compiler (`mux_envs`) is modelled for the core fragment
 (Model/BitSem.lean: scalars, `if`, `match` on scalars, `&&` / `||`, blocks, `let`, `let mut`,
-assignment to a variable):
+assignment to a variable, calls of functions on scalars):
 
 * `C14_compiled_scope`, `C14_compiled_stmts_scope`: the compiled code keeps the scope stack — after
   an expression exactly the same variables (names, types, order) are in scope, statements only add
@@ -172,14 +172,14 @@ namespace Bit
 open Src
 
 /-- **the compiled code keeps the scope stack** (expressions) -/
-theorem C14_compiled_scope (e : Expr) (benv benv' : BEnv) (t : VTy) (bs : List Bool) (p : P)
-    (h : bitExpr benv e = some (t, bs, p, benv')) : shape benv' = shape benv :=
-  shapeE e benv t bs p benv' h
+theorem C14_compiled_scope (call : CallFn) (e : Expr) (benv benv' : BEnv) (t : VTy) (bs : List Bool) (p : P)
+    (h : bitExpr call benv e = some (t, bs, p, benv')) : shape benv' = shape benv :=
+  shapeE call e benv t bs p benv' h
 
 /-- statements only add their own bindings in front of the variables they found -/
-theorem C14_compiled_stmts_scope (ss : StmtList) (benv benv' : BEnv) (t : VTy) (bs : List Bool) (p : P)
-    (h : bitStmts benv ss = some (t, bs, p, benv')) : ∃ pre, shape benv' = pre ++ shape benv :=
-  shapeSS ss benv t bs p benv' h
+theorem C14_compiled_stmts_scope (call : CallFn) (ss : StmtList) (benv benv' : BEnv) (t : VTy) (bs : List Bool) (p : P)
+    (h : bitStmts call benv ss = some (t, bs, p, benv')) : ∃ pre, shape benv' = pre ++ shape benv :=
+  shapeSS call ss benv t bs p benv' h
 
 /-- **`mux_envs`**: merging, variable by variable, two environments with the same variables gives the
 environment of the branch taken -/
@@ -188,16 +188,31 @@ theorem C14_merge (c : Bool) (a b : BEnv) (h : shape a = shape b) : muxEnv c a b
 
 /-- **no variable is lost or mixed up by control flow**: whatever the statements do, afterwards the wires
 of every variable in scope encode the value the source semantics give that variable -/
-theorem C14_compiled_state (prog : Prog) (fuel : Nat) (env env' : Src.Env) (benv benv' : BEnv) (body : StmtList)
+theorem C14_compiled_state (prog : Prog) (depth fuel : Nat) (env env' : Src.Env) (benv benv' : BEnv) (body : StmtList)
     (t : VTy) (bits : List Bool) (p : P) (v : Val)
-    (henv : EnvRel env benv) (hbits : bitStmts benv body = some (t, bits, p, benv'))
+    (henv : EnvRel env benv) (hbits : bitStmts (callAt prog depth) benv body = some (t, bits, p, benv'))
     (hsrc : evalStmts fuel prog env body = .ok (v, env')) : EnvRel env' benv' := by
-  have h := (core_all prog fuel).2.1 body env benv _ bits p benv' henv hbits
+  have h := (core_all prog (callAt prog depth) (callAt_sound prog depth) fuel).2.1 body env benv _ bits p benv' henv hbits
   rw [hsrc] at h
   exact h.2.2
 
+/-- **a call cannot touch the caller's variables**: the callee is compiled with its parameters only, and the
+caller goes on with the variables its argument expressions left -/
+theorem C14_compiled_call_frame (call : CallFn) (fn : String) (args : ExprList) (benv benv' : BEnv) (t : VTy)
+    (bs : List Bool) (p : P) (h : bitExpr call benv (.call fn args) = some (t, bs, p, benv')) :
+    ∃ vs pargs, bitList call benv args = some (vs, pargs, benv') := by
+  simp only [bitExpr] at h
+  split at h
+  · rename_i vs pargs env1 hl
+    split at h
+    · simp only [Option.some.injEq, Prod.mk.injEq] at h
+      obtain ⟨_, _, _, rfl⟩ := h
+      exact ⟨vs, pargs, hl⟩
+    · simp at h
+  · simp at h
+
 /-- non-vacuity: `if c { x = 1u8; y = x; } else { y = 2u8; }` — both variables are merged -/
-example : bitStmts [("c", .bool, [false]), ("x", .int .u8, enc .u8 7), ("y", .int .u8, enc .u8 0)]
+example : bitStmts (callAt ⟨[], []⟩ 0) [("c", .bool, [false]), ("x", .int .u8, enc .u8 7), ("y", .int .u8, enc .u8 0)]
     (.cons (.expr (.ite (.var "c")
       (.block (.cons (.assign "x" .nil (.int 1 .u8)) (.cons (.assign "y" .nil (.var "x")) .nil)))
       (.block (.cons (.assign "y" .nil (.int 2 .u8)) .nil)))) .nil) =
